@@ -4,7 +4,7 @@
 From Coq Require Import ZArith List Bool.
 From Low Require Import Lib.MachInt Lib.Bits Lib.BitSeq Model.Rank Spec.RankSpec Proofs.RankProofs.
 From Low Require Import Model.Rank32 Model.RankOps Model.BitmapOf Spec.RankLawsSpec Spec.OfQuerySpec
-  Proofs.Rank32Proofs Proofs.RankLaws Proofs.RankIndexLaws Proofs.RankConcat Proofs.RankHistory Proofs.RankCompose Proofs.RankComplement.
+  Proofs.Rank32Proofs Proofs.RankLaws Proofs.RankIndexLaws Proofs.RankConcat Proofs.RankHistory Proofs.RankCompose Proofs.RankComplement Proofs.RankConcat128.
 Import ListNotations.
 Open Scope Z_scope.
 
@@ -209,6 +209,13 @@ Theorem C01_IndexRank64_concat : forall a b tr, words_ok a ->
   IndexRank64 (a ++ b) tr = IndexRank64 a false ++ map (Z.add (total1 a)) (IndexRank64 b tr).
 Proof. exact IndexRank64_app. Qed.
 Print Assumptions C01_IndexRank64_concat.
+
+(** the 128-bit index of a concatenation, when the first piece has an even number of words (its last entry, the
+    total of the first piece, is where the second index starts) *)
+Theorem C01_IndexRank128_concat : forall a b, words_ok a -> words_ok b -> Nat.even (length a) = true ->
+  IndexRank128 (a ++ b) = removelast (IndexRank128 a) ++ map (Z.add (total1 a)) (IndexRank128 b).
+Proof. exact IndexRank128_app. Qed.
+Print Assumptions C01_IndexRank128_concat.
 
 (** histories over several bitmaps with HELD indexes, queried in any order, words overwritten in place and the
     bitmap re-indexed: every answer is for the current contents (op bitmap.Rank/history) *)
